@@ -25,6 +25,7 @@ COMPUTE = [
     "fit_fractions_old",
     "fit_fractions_new",
     "ff_integral",
+    "ff_reuse",
     "factor_iteration",
     "config_cal_fitfractions",
     "build_amp_matrix",
@@ -174,8 +175,8 @@ def op_args(k, rs):
         a["chains"] = [rs.randrange(1000) for _ in range(rs.randint(1, 2))]
     if k == "partial_weight_combine":
         a["combine"] = [[rs.randrange(1000) for _ in range(rs.randint(1, 2))] for _ in range(rs.randint(1, 2))]
-    if k in ("cal_fitfractions", "cal_fitfractions_no_grad", "fit_fractions_old", "fit_fractions_new", "ff_integral", "config_cal_fitfractions"):
-        a["batch"] = rs.choice([None, 4, 5, 100]) if k in ("cal_fitfractions", "cal_fitfractions_no_grad", "ff_integral") else rs.choice([4, 5, 100])
+    if k in ("cal_fitfractions", "cal_fitfractions_no_grad", "fit_fractions_old", "fit_fractions_new", "ff_integral", "ff_reuse", "config_cal_fitfractions"):
+        a["batch"] = rs.choice([None, 4, 5, 100]) if k in ("cal_fitfractions", "cal_fitfractions_no_grad", "ff_integral", "ff_reuse") else rs.choice([4, 5, 100])
         a["res_sub"] = rs.chance(0.3)
     if k == "factor_iteration":
         a["deep"] = rs.choice([1, 2, 2, 3])
@@ -227,6 +228,22 @@ def generate(job):
             ops.append(op)
         else:
             ops.append(gen_op(ro, 0, True, enabled))
+    if kind == "history" and rk.chance(0.2):
+        # directed template: a long-lived FitFractions object is evaluated, the chain selection changes
+        # (permanently or inside a block), and the same object is evaluated again
+        first = {"k": "ff_reuse"}
+        first.update(op_args("ff_reuse", ro))
+        again = {"k": "ff_reuse"}
+        again.update(op_args("ff_reuse", ro))
+        if rk.chance(0.5):
+            sel = {"k": "set_used_res"}
+            sel.update(op_args("set_used_res", ro))
+            ops = [first, sel, again] + ops[:3]
+        else:
+            blk = rk.choice(["amp.temp_used_res", "dg.temp_used_res"])
+            bop = {"k": blk, "body": [again]}
+            bop.update(op_args(blk, ro))
+            ops = [first, bop] + ops[:3]
     if kind == "traced":
         # directed template: second sight of a data object happens inside an override block
         tmpl = rk.randrange(3)
@@ -320,10 +337,15 @@ class Session:
         if ck in _DATA_CACHE and "preprocessor" not in STRATEGIES[spec["strategy"]]:
             self.data = dict(_DATA_CACHE[ck])
         else:
+            # the samples always come from a SEPARATE, equal ConfigLoader instance: their dictionary keys are equal
+            # to, never identical with, the session's particle objects - on a cache hit and on a miss alike, so
+            # the number of traced line events (Particle.__eq__ behind dict look-ups) does not depend on what
+            # this worker ran before
             self.data = {}
+            gen_cfg = cards.build(spec["card"], STRATEGIES[spec["strategy"]])
             with rng_seam(spec["data_seed"]):
                 for name in ("A", "B"):
-                    self.data[name] = self.config.generate_phsp(spec["n" + name])
+                    self.data[name] = gen_cfg.generate_phsp(spec["n" + name])
             _DATA_CACHE.clear()
             _DATA_CACHE[ck] = dict(self.data)
         self.traced = "use_tf_function" in STRATEGIES[spec["strategy"]]
@@ -443,6 +465,15 @@ class Session:
             ff = FitFractions(amp, res or list(self.resnames))
             ff.integral(D, batch=op.get("batch"))
             return ff.get_frac_grad()
+        if k == "ff_reuse":
+            # ONE long-lived FitFractions object per session, re-evaluated whenever this operation comes up -
+            # possibly under another chain selection / inside another block than the one it was created in
+            if getattr(self, "ff_obj", None) is None:
+                self.ff_obj = FitFractions(amp, list(self.resnames))
+            else:
+                self.log.count("probe.fitfractions_object_reused")
+            self.ff_obj.integral(D, batch=op.get("batch"))
+            return len(self.ff_obj.res)
         if k == "factor_iteration":
             out = []
             gen = amp.factor_iteration(deep=op.get("deep", 2))
